@@ -3,6 +3,7 @@ package main
 import (
 	"github.com/bradenaw/juniper/container/deque"
 	"github.com/bradenaw/juniper/iterator"
+	"math"
 )
 
 func init() { components["deque"] = runDeque }
@@ -38,7 +39,13 @@ func runDeque(c *Case) *Obs {
 			case "len":
 				res = []any{"int", d.Len()}
 			case "grow":
-				d.Grow(num(op[1]))
+				n := 0
+				if name, ok := op[1].(string); ok { // huge arguments travel by name
+					n = map[string]int{"maxint": math.MaxInt, "maxint-16": math.MaxInt - 16, "maxint/2": math.MaxInt / 2}[name]
+				} else {
+					n = num(op[1])
+				}
+				d.Grow(n)
 				res = []any{"unit"}
 			case "shrink":
 				d.Shrink(num(op[1]))
